@@ -1,8 +1,8 @@
 #!/bin/sh
-# tools/adopt_mutant.sh <Cxx> <k> : verify a sub-agent's change in a fresh scratch worktree and keep it under seeded/
+# tools/adopt_mutant.sh <Cxx> <k> (env MUTDIR=/tmp/mut2 KOFF=2 for the second round: files patch<k>.diff etc. in $MUTDIR/<Cxx>, kept as <Cxx>-<k+KOFF>) : verify a sub-agent's change in a fresh scratch worktree and keep it under seeded/
 # (demo passes on pristine, fails with the patch, the full unedited test suite passes with the patch)
-P="$1"; K="$2"; SRC="/tmp/mut/$P"
-ID="$P-$K"; W="/tmp/adopt_$ID"
+P="$1"; K="$2"; SRC="${MUTDIR:-/tmp/mut}/$P"
+ID="$P-$((K + ${KOFF:-0}))"; W="/tmp/adopt_$ID"
 [ -f "$SRC/patch$K.diff" ] || { echo "$ID: no patch"; exit 2; }
 git -C /repo worktree remove --force "$W" 2>/dev/null
 git -C /repo worktree add --detach "$W" HEAD -q || exit 2
